@@ -1235,6 +1235,16 @@ func (c Code) String() string {
 // defmacro calls and converts unquoted lists to functions.
 func (c Code) Compile() {
 	scope := NewScope()
+	// A defpackage or in-package form takes effect while compiling as well
+	// so that the definitions and calls that follow are compiled in the
+	// package they will be evaluated in. The current package is restored
+	// before returning.
+	orig := CurrentPackage
+	defer func() {
+		if CurrentPackage != orig {
+			setCurrentPackage(orig)
+		}
+	}()
 	for i, obj := range c {
 		list, ok := obj.(List)
 		if !ok || len(list) == 0 {
@@ -1258,9 +1268,11 @@ func (c Code) Compile() {
 		}
 		var f Object
 		switch strings.ToLower(string(sym)) {
-		case "defun", "defmacro", "defvar", "defparameter", "defconstant":
+		case "defun", "defmacro", "defvar", "defparameter", "defconstant", "defpackage":
 			f = ListToFunc(scope, list, 0)
 			c[i] = f
+		case "in-package":
+			compileInPackage(scope, ListToFunc(scope, list, 0))
 		}
 		if f != nil {
 			name := f.Eval(scope, 0)
@@ -1271,13 +1283,27 @@ func (c Code) Compile() {
 		}
 	}
 	// Now convert lists to functions.
+	if CurrentPackage != orig {
+		setCurrentPackage(orig)
+	}
 	for i, obj := range c {
 		list, ok := obj.(List)
 		if !ok || len(list) == 0 {
 			continue
 		}
 		c[i] = CompileList(list)
+		if sym, _ := list[0].(Symbol); strings.EqualFold("in-package", string(sym)) {
+			compileInPackage(scope, c[i])
+		}
 	}
+}
+
+// compileInPackage evaluates an in-package form while compiling. A package
+// that only exists once earlier forms have been evaluated is left for the
+// evaluation of the form.
+func compileInPackage(scope *Scope, f Object) {
+	defer func() { _ = recover() }()
+	_ = f.Eval(scope, 0)
 }
 
 // Eval all code elements and return the value of the last evaluation.
